@@ -106,7 +106,7 @@ def gen_prog(rng):
             else:
                 args.append(["V", rng.choice(inst)])
         calls.append({"args": args})
-    return {"spec": spec, "defs": defs, "calls": calls, "tpos": tpos, "prehistory": rng.random() < 0.2}
+    return {"spec": spec, "defs": defs, "calls": calls, "tpos": tpos, "prehistory": rng.choice([False, False, False, False, False, False, True, True, 2, 2])}
 
 
 def gen_kwtype(rng, spec, w):
@@ -135,7 +135,25 @@ def slots(d):
 def check(ctx, prog, stats, samples):
     w = world_from(prog["spec"])
     defs = prog["defs"]
-    if prog.get("prehistory"):
+    target = None
+    if prog.get("prehistory") == 2:
+        # a copy whose signature is looked at before its first use; the function it was copied from then receives its
+        # type[...] methods; the calls go through the copy, which is assembled from its parent's methods at first use
+        import inspect
+        first = [d for d in defs if not any(t[0] == 1 for t in slots(d))]
+        rest = [d for d in defs if any(t[0] == 1 for t in slots(d))]
+        if first and rest:
+            defs = first + rest
+            b = progs.Built(w, first)
+            target = b.ov.copy()
+            target.rename("g")
+            str(inspect.signature(target.dispatch).parameters)
+            for d in rest:
+                b.register(d)
+            stats["prehistories"] = stats.get("prehistories", 0) + 1
+        else:
+            b = progs.Built(w, defs)
+    elif prog.get("prehistory"):
         # before the first call: as many plain methods as the program has, the signature looked at, all of them
         # unregistered again, then the program's own methods (the first to say type[...]) -- nothing of that may show
         import inspect
@@ -179,7 +197,7 @@ def check(ctx, prog, stats, samples):
         pykw.append(kw)
     mres = model.run_cases([[10, w.encode(), mms, [[0, k] for k in keys]], [22, w.encode(), mms, keys]])
     for call, vals, kwv, mo, art in zip(prog["calls"], pyargs, pykw, mres[0], mres[1]):
-        out, entered = b.call(vals, kwv)
+        out, entered = b.call(vals, kwv, target)
         stats["evaluations"] += 1
         case = dict(prog, calls=[call])
         m = progs.dec_outcome(mo)
